@@ -23,7 +23,7 @@ SVRW = [dict(name='CONT-find_first_not_of', pat='$1 . find_first_not_of (', rep=
         dict(name='sv-empty', pat='string_view { }', rep='sv_empty ( )', min=0),
         dict(name='std-min', pat='min (', rep='sz_min (', min=0),
         dict(name='auto-sv', pat='auto $1 = sv_substr', rep='sv_t $1 = sv_substr', min=0),
-        dict(name='auto-cstr', pat='auto target = "', rep='const char * target = "', min=0),
+        dict(name='auto-cstr', pat='auto target = $1 ;', rep='const char * target = $1 ;', min=0),
         dict(name='auto-size', pat='auto $1 =', rep='size_t $1 =', min=0),
         dict(name='aggregate-init', pat='return Transition {', rep='return ( Transition ) {', min=0)]
 xf_pu = back_xform([], refparams=(), rewrites=SVRW, drop=DROP_KW | {'constexpr'})
@@ -124,3 +124,55 @@ UNITS.append(Unit('front.puml.parse_row.bounded', ['C14'], 'front', Part(PU, [],
     unwind={'quick': 30, 'thorough': 30}, defines=['LEN=28'], timeout=900,
     bounded='generated transition lines: source identifier of 1-3 characters, arrow of 1-3 dashes, right part as in parse_row_right.bounded (replaced by its checked contract stub), length <= 26',
     cbmc_flags=['--no-signed-overflow-check'], replay=['puml']))
+
+# ---- action lists: count_actions / parse_action<a> (a comma separated list becomes that many actions, in order) ----
+GEN_ACTS = '''
+static size_t put(char* buf, size_t pos, char c) { __CPROVER_assert(pos < LEN, "harness: generated list fits"); buf[pos] = c; return pos + 1; }
+static size_t it_b[3], it_e[3]; static unsigned n_items;
+static size_t gen_actions(char* buf) {
+  size_t pos = 0; unsigned n; __CPROVER_assume(n <= 3); n_items = n;
+  for (unsigned k = 0; k < 3; ++k) if (k < n) {
+    unsigned l; _Bool sp_before, sp_after; __CPROVER_assume(1 <= l && l <= 2);
+    if (k > 0) pos = put(buf, pos, ',');
+    if (sp_before) pos = put(buf, pos, ' ');
+    it_b[k] = pos; for (unsigned i = 0; i < 2; ++i) if (i < l) { char c; __CPROVER_assume(is_ident(c)); pos = put(buf, pos, c); } it_e[k] = pos;
+    if (sp_after) pos = put(buf, pos, ' ');
+  }
+  return pos; }
+'''
+H_COUNT = GEN_ACTS + '''
+void h_count_actions(void){
+  char buf[LEN]; size_t n = gen_actions(buf); sv_t s; s.p = buf; s.n = n;
+  int r = count_actions(s);
+  __CPROVER_assert(r == (int)n_items, "C14.puml-action-list-has-one-action-per-comma-separated-item");
+  __CPROVER_assert(n_items != 3, "canary: a list of three actions is generated");
+}
+'''
+UNITS.append(Unit('front.puml.count_actions.bounded', ['C14'], 'front', Part(PU, [], 'int count_actions ( string_view s )'),
+    'int count_actions(sv_t s)', 'puml.spec.h', xform=xf_pu, mode='bounded', harness=H_COUNT, unwind={'quick': 16, 'thorough': 16}, defines=['LEN=14'],
+    bounded='generated action lists: 0-3 identifiers of 1-2 characters, optional blank before / after each (length <= 14)', cbmc_flags=['--no-signed-overflow-check'], replay=['puml']))
+H_PACT = GEN_ACTS + '''
+void h_parse_action(void){
+  char buf[LEN]; size_t n = gen_actions(buf); sv_t s; s.p = buf; s.n = n;
+  int a; __CPROVER_assume(0 <= a && a < (int)n_items);          /* the library asks for actions 0 .. count_actions-1 (mp_iota over the count) */
+  sv_t r = parse_action(a, s);
+  __CPROVER_assert(sv_eq_range(r, buf, it_b[a], it_e[a]), "C14.puml-action-number-a-is-the-a-th-item-of-the-list-in-order");
+  __CPROVER_assert(!(n_items == 3 && a == 2), "canary: the third action of three is asked for");
+}
+'''
+UNITS.append(Unit('front.puml.parse_action.bounded', ['C14'], 'front', Part(PU, [], 'auto parse_action ( string_view actions )'),
+    'sv_t parse_action(int a, sv_t actions)', 'puml.spec.h', xform=back_xform([], refparams=(), rewrites=SVRW + [dict(name='CAST-functional', pat='size_t ( 0 )', rep='( ( size_t ) 0 )', min=0), dict(name='auto-int', pat='size_t action_cpt = 0 ;', rep='int action_cpt = 0 ;', min=1, max=1)], drop=DROP_KW | {'constexpr'}), mode='bounded', harness=H_PACT, aux=[AUX_CLEAN], unwind={'quick': 16, 'thorough': 16}, defines=['LEN=14'],
+    bounded='generated action lists as in count_actions.bounded, every index below the number of items', cbmc_flags=['--no-signed-overflow-check'], replay=['puml']))
+H_CTR = '''
+void h_count_transitions(void){
+  char buf[LEN]; size_t n; __CPROVER_assume(n <= LEN); sv_t s; s.p = buf; s.n = n;
+  int r = count_transitions(s);
+  /* oracle: number of non-overlapping "->" scanning left to right */
+  int c = 0; for (size_t i = 0; i + 1 < LEN; ++i) if (i + 1 < n && buf[i] == '-' && buf[i + 1] == '>') { ++c; ++i; }
+  __CPROVER_assert(r == c, "C14.puml-one-transition-per-arrow");
+  __CPROVER_assert(c != 3, "canary: a text with three arrows is generated");
+}
+'''
+UNITS.append(Unit('front.puml.count_transitions.bounded', ['C14'], 'front', Part(PU, [], 'int count_transitions ( string_view s )'),
+    'int count_transitions(sv_t s)', 'puml.spec.h', xform=xf_pu, mode='bounded', harness=H_CTR, unwind={'quick': 14, 'thorough': 22}, defines=['LEN=12'],
+    bounded='arbitrary texts of at most 12 characters (thorough: 20)', cbmc_flags=['--no-signed-overflow-check'], replay=['puml']))
